@@ -105,6 +105,14 @@ def run_job(job):
                 r = a * b
             elif op == 'div':
                 r = a / b
+            elif op == 'radd':
+                r = b + a
+            elif op == 'rsub':
+                r = b - a
+            elif op == 'rmul':
+                r = b * a
+            elif op == 'rdiv':
+                r = b / a
             elif op == 'neg':
                 r = -a
             elif op == 'pos':
@@ -163,7 +171,7 @@ def run_job(job):
         pool = [Polynomial.fromname(n) for n in rng.sample(NAMES, 3)] + [Polynomial(rng.choice([0, 1, 2, -1, 0.5]))]
         pool += [RationalPolynomial.fromname(n) for n in rng.sample(NAMES, 3)] + [RationalPolynomial([[rng.choice([1, 2, -3])]]), RationalPolynomial([])]
         for s in range(job['steps']):
-            op = rng.choice(['add', 'sub', 'mul', 'mul', 'add', 'neg', 'pow', 'div', 'inv', 'pos'])
+            op = rng.choice(['add', 'sub', 'mul', 'mul', 'add', 'neg', 'pow', 'div', 'inv', 'pos', 'radd', 'rsub', 'rmul', 'rdiv'])
             a = rng.choice(pool)
             b, n = None, 0
             if op in ('add', 'sub', 'mul', 'div'):
@@ -172,6 +180,11 @@ def run_job(job):
                 same = [x for x in pool if type(x) is type(a)]
                 b = rng.choice(same) if rng.random() < 0.8 else (rng.choice([0, 1, 2, -1, 3, 0.5]) if op != 'div' else rng.choice([2, 4, -2, 0.5]))
                 if op == 'div' and type(a) is Polynomial and isinstance(b, Polynomial) and rng.random() < 0.5:
+                    continue
+            if op in ('radd', 'rsub', 'rmul', 'rdiv'):
+                # a plain number on the LEFT (generated code contains e.g. `1 - p` and `1/p`); quotients only of rational polynomials
+                b = rng.choice([0, 1, 2, -1, 3, 0.5]) if op != 'rdiv' else rng.choice([1, 2, -1, 4])
+                if op == 'rdiv' and not isinstance(a, RationalPolynomial):
                     continue
             if op == 'inv' and not isinstance(a, RationalPolynomial):
                 continue
